@@ -46,11 +46,15 @@ pub fn serialise(recs: &[Vec<u8>], container: &str, wrap: usize, dir: &str, stem
     let (bytes, name) = match container {
         "fagz" | "fqgz" => (gz(&[texts.concat()], Compression::default()), format!("{}.{}.gz", stem, ext)),
         "fagz0" => (gz(&[texts.concat()], Compression::none()), format!("{}.{}.gz", stem, ext)),
-        "fagzm" => {
-            // one member per 1..3 records, plus an empty final member as bgzip writes
+        "fagzm" | "fqgzm" => {
+            // one member per 1..3 records, plus an empty final member as bgzip writes; "fqgzm": FASTQ, and an empty
+            // member after every member (bgzip files joined with cat: each ends with its empty EOF block)
             let mut parts: Vec<Vec<u8>> = vec![];
             for (i, t) in texts.iter().enumerate() {
-                if i % 3 == 0 || parts.is_empty() { parts.push(vec![]); }
+                if i % 3 == 0 || parts.is_empty() {
+                    if container == "fqgzm" && !parts.is_empty() { parts.push(vec![]); }
+                    parts.push(vec![]);
+                }
                 parts.last_mut().unwrap().extend(t);
             }
             parts.push(vec![]);
@@ -378,7 +382,7 @@ pub fn exec(p: &[&str], scratch: &str) -> String {
             let t: usize = p[5].parse().unwrap();
             // the settings are what the LAST call of each setter said, in whatever order and however often the setters
             // were called, and an object can be run more than once: the way the calls are made varies with the case
-            let variant = variant_of(p, 4);
+            let variant = variant_of(p, 5);
             match variant {
                 1 => { c.set_max_memory(p[6].parse().unwrap()); if t > 0 { c.set_threads(t); } c.set_delim(delim.clone()); c.set_header(hdr); c.set_norm(norm); }
                 2 => {
@@ -389,6 +393,13 @@ pub fn exec(p: &[&str], scratch: &str) -> String {
                 _ => { c.set_norm(norm); c.set_header(hdr); c.set_delim(delim.clone()); if t > 0 { c.set_threads(t); } c.set_max_memory(p[6].parse().unwrap()); }
             }
             let run = |c: &composition::oligo::OligoComputer| match p[7] { "mmap" => c.verif_vectorise_mmap(), "batch" => c.verif_vectorise_batch(), _ => c.vectorise() };
+            if variant == 4 {
+                // the same object wrote the same output before, with a delimiter of another length (another row length and
+                // header length): the run that counts must remember nothing of it
+                c.set_delim(if delim.len() == 1 { "#@#".to_string() } else { ";".to_string() });
+                if let Err(e) = run(&c) { return format!("ERR earlier run {}", e); }
+                c.set_delim(delim.clone());
+            }
             if let Err(e) = run(&c) { return format!("ERR {}", e); }
             if variant == 3 { if let Err(e) = run(&c) { return format!("ERR second run {}", e); } }
             hex(&std::fs::read(&out).unwrap())
